@@ -491,7 +491,9 @@ def r2(ctx, rep):
     cg, syn = ctx.cg, ctx.syn
     rev = {r["key"]: r for r in load("c12_recursion.json")["rows"]}
     # (a) a depth guard anywhere on the recursive-descent path?
-    guard_words = re.compile(r"depth|recursion_limit|stacker|maybe_grow|MAX_NEST", re.I)
+    # (the bound on nested *function bodies*, `function_depth`, is a different guard: it ends the resolution of a recursive function and says
+    # nothing about how deeply an expression may be nested; R14 checks it)
+    guard_words = re.compile(r"^(?!.*function_depth)(?!.*MAX_FUNCTION_DEPTH).*(depth|recursion_limit|stacker|maybe_grow|MAX_NEST)", re.I)
     guards_found = []
     for f in syn.fns:
         if f["crate"] not in ("prqlc", "prqlc_parser") or "body" not in f:
@@ -1084,6 +1086,46 @@ def r13(ctx, rep):
     rep.check(n_sites >= 4, "sites", f"expected the table declarations of stmt.rs (2), inference.rs and module.rs, found {n_sites}")
 
 
+def r14(ctx, rep):
+    """A function that calls itself (`let f = x -> f x`, or two that call each other) is resolved by materialising its body, which applies
+    it again: without a bound this never ends - a stack overflow abort on a three-line program. The function that materialises a body
+    counts how many bodies are open and refuses with an error beyond a constant; the count is restored on the way out."""
+    import guards
+    rep.rule("C12.R14", "materialising a user function's body is bounded: a depth counter is tested against a constant (Err beyond it), incremented before and restored after the body is resolved", floor=3)
+    syn = ctx.syn
+    f = syn.fn("Resolver::materialize_function", crate="prqlc")
+    loc = dict(file=f["file"], fn=f["path"])
+    stmts = f["body"].get("s", [])
+    # the counter: a field of self that is incremented at the top level of the body
+    incs = [(i, st) for i, st in enumerate(stmts) if st.get("k") == "bin" and st.get("op") == "+=" and show(st["lhs"]).startswith("self.") and lit_val(st["rhs"]) in (1, "1")]
+    if not incs:
+        incs = [(i, st) for i, st in enumerate(stmts) if st.get("k") in ("assign_op",) and show(st.get("lhs", {})).startswith("self.")]
+    rep.check(len(incs) == 1, "function-depth:counted", f"materialize_function counts the open function bodies (`self.<counter> += 1` at the top level; found {len(incs)})", line=f["l"], **loc)
+    if len(incs) != 1:
+        return
+    i_inc, inc = incs[0]
+    counter = show(inc["lhs"])
+    # the test: before the increment, `if <counter> >= / > CONST { return Err(..) }`
+    tests = []
+    for i, st in enumerate(stmts[:i_inc]):
+        if st.get("k") == "if" and st["c"].get("k") == "bin" and st["c"]["op"] in (">=", ">") and show(st["c"]["lhs"]) == counter:
+            bound = st["c"]["rhs"]
+            is_const = bound.get("k") == "lit" or (bound.get("k") == "path" and bound["p"].isupper())
+            errs = any(x.get("k") == "return" and x.get("e") is not None and show(x["e"], maxdepth=3).startswith("Err(") for x in walk(st["t"]))
+            if is_const and errs:
+                tests.append(st)
+    rep.check(len(tests) == 1, "function-depth:bounded", f"before it goes deeper materialize_function compares `{counter}` with a constant and returns an error beyond it (found {len(tests)} such test(s)): "
+              "a recursive function otherwise overflows the stack", line=f["l"], **loc)
+    # the body is resolved between the increment and a restoring assignment; the result of the body is what is returned
+    after = stmts[i_inc + 1:]
+    body_calls = [st for st in after if st.get("k") == "local" and st.get("init") is not None and any(x.get("k") == "mcall" and show(x["r"]) == "self" for x in walk(st["init"]))]
+    restores = [st for st in after if st.get("k") == "assign" and show(st["lhs"]) == counter and re.search(r"saturating_sub\(1\)| - 1", show(st["rhs"], maxdepth=6))]
+    restores += [st for st in after if st.get("k") == "bin" and st.get("op") == "-=" and show(st["lhs"]) == counter]
+    ok = len(body_calls) >= 1 and len(restores) == 1 and restores[0]["l"] > body_calls[0]["l"] and not any(x.get("k") == "try" for st in after[:after.index(restores[0])] for x in walk(st))
+    rep.check(ok, "function-depth:restored", f"`{counter}` is restored after the body was resolved, on the error path too (no `?` between the increment and the restore; found {len(body_calls)} body call(s), "
+              f"{len(restores)} restore(s)): otherwise sibling calls add up and a long pipeline of user-function calls is refused", line=f["l"], **loc)
+
+
 def run(ctx, rep):
-    for r in (r1, r2, r3, r4, r5, r6, r7, r8, r9, r10, r11, r12, r13):
+    for r in (r1, r2, r3, r4, r5, r6, r7, r8, r9, r10, r11, r12, r13, r14):
         rep.guard(r, ctx)
